@@ -197,7 +197,7 @@ def run(ctx):
         ctx.violation('construction', 'every DirectionalVariogram(...) raises %s: %s' % (type(err).__name__, err), case,
                       signature=dict(kind='construction'))
         return
-    for k in range(ctx.n(60, 600)):
+    for k in range(ctx.n(100, 800)):
         check_case(ctx, gen(ctx))
     ctx.lean.flush()
 
